@@ -759,7 +759,7 @@ func seqRun(prop, tier string, c Case, w *Worker) (res Result) {
 		h.outs = append(h.outs, out)
 		res.count("calls", 1)
 		res.count("calls_"+op.K, 1)
-		if op.Spell != 0 {
+		if op.Spell != 0 || op.SpellB != 0 {
 			res.count("calls_with_unusual_spelling", 1)
 		}
 		if p.Exotic {
